@@ -994,14 +994,38 @@ def rule_estimator(cx, ptable):
         a, d, last = dt_arg
         rep.ok(R_P, I2, fact={"definition": unp(d) if d is not None else unp(a)})
         guard = None
+        offset = 0.0
         for f in pev.facts:
             cc = canon_cmp(loc.inline(f.cond, f.cond.lineno), f.pol)
             la = linform(loc.inline(a, f.cond.lineno))
-            if cc is None or set(cc[0]) != set(la) or None in la:
+            if cc is None or None in la or not set(la) <= set(cc[0]):
                 continue
             ks = {round(cc[0][x] / la[x], 9) for x in la}
-            if len(ks) == 1:
-                guard = (f, ks.pop(), cc[1])
+            if len(ks) != 1:
+                continue
+            k0 = next(iter(ks))
+            # extra terms: k*dt - c > 0 with c a non-negative constant (literal or an attribute bound once to a non-negative
+            # number) still implies dt > 0; the offset is recorded (samples with 0 < dt <= c are skipped)
+            extra_ok, off = True, 0.0
+            for x, cx_ in cc[0].items():
+                if x in la:
+                    continue
+                if x is None:
+                    val = -cx_
+                else:
+                    binds = self_assigns(cls, x[5:]) if x.startswith("self.") else []
+                    v = binds[0].value if len(binds) == 1 else None
+                    if not (isinstance(v, ast.Constant) and isinstance(v.value, (int, float))):
+                        extra_ok = False
+                        break
+                    val = -cx_ * v.value
+                if k0 <= 0 or val < 0:
+                    extra_ok = False
+                    break
+                off += val / k0
+            if extra_ok:
+                guard = (f, k0, cc[1] or off > 0)
+                offset = off
         if guard is None:
             rep.fail(R_P, I + " is dominated by dt > 0", "no condition `%s > 0` holds at the predict call: a repeated or out-of-order IMU time stamp is propagated with a non-positive step" % unp(a),
                      where=cx.where(rel, pcall))
@@ -1009,7 +1033,7 @@ def rule_estimator(cx, ptable):
             f, k, strict = guard
             rep.check(R_P, I + " is dominated by dt > 0", k > 0 and strict,
                       "the guard only establishes %s at the predict call, so a non-positive step is not excluded" % f.text(),
-                      where=cx.where(rel, f.stmt), fact={"guard": f.text(), "other side": f.origin})
+                      where=cx.where(rel, f.stmt), fact={"guard": f.text(), "other side": f.origin, "skips_positive_steps_up_to": offset})
         I3 = I + " updates %s on every path" % last
         if d is None:
             rep.incomplete(R_P, I3, "the time step is computed inside the call; ordering against the time-stamp update is not analysed", where=cx.where(rel, pcall))
